@@ -6,7 +6,9 @@ BuildersKeys and the error kind + named locale/key; Parser/MergeCheck.v evaluate
 import itertools
 import json
 
+from checks import cov_merge as cm
 from checks import merge_common as mc
+from checks import pairwise
 from vlib import core
 
 THEOREMS = ["C07_keyset", "C07_mismatch", "C07_no_default_null", "C07_default_null_only", "C07_suppressed",
@@ -152,6 +154,21 @@ def run(ctx):
     metas, codes = mc.evaluate(ctx, exe, projs, False, "n", "check_C07s")
     metas_s, codes_s = mc.evaluate(ctx, exe_s, projs, True, "s", "check_C07s")
     metas, codes = metas + metas_s, codes + codes_s
+    # pairwise coverage of the quantifier's dimensions; directed cases fill the empty feasible cells
+    table = pairwise.Table(cm.C07_DIMS, cm.c07_infeasible)
+    pairwise.add_all(table, [o for m in metas for o in cm.c07_tags(m["project"], "suppress" if m["suppress"] else "normal")])
+    gaps_before = ["%s=%s x %s=%s" % c for c in table.gaps()]
+    directed = pairwise.greedy(table, ctx.rng, cm.c07_draw, lambda sc: cm.c07_build(ctx.rng, sc),
+                               lambda p: cm.c07_tags(p, "normal") + cm.c07_tags(p, "suppress"))
+    if directed:
+        dp = [("directed", p) for p in directed]
+        m1, c1 = mc.evaluate(ctx, exe, dp, False, "dn", "check_C07s")
+        m2, c2 = mc.evaluate(ctx, exe_s, dp, True, "ds", "check_C07s")
+        metas, codes = metas + m1 + m2, codes + c1 + c2
+    pw = table.report()
+    pw["zero_cells_before_directed_cases"] = gaps_before[:80]
+    pw["zero_cells_before_directed_cases_count"] = len(gaps_before)
+    pw["directed_cases"] = len(directed)
     bad = [m for m, c in zip(metas, codes) if c == 3]
     dis = [m for m, c in zip(metas, codes) if c == 2]
     skipped = [m for m, c in zip(metas, codes) if c == 1]
@@ -198,7 +215,7 @@ def run(ctx):
         "traces_validated_against_impl": len(metas), "disagreements": len(dis), "spec_failures_on_impl": len(bad),
         "skipped_outside_model": len(skipped), "panics": len(panics),
         "other_warning_kinds_ignored": sum(m["impl"].get("other_warnings", 0) for m in metas),
-        "input_distribution": hist, "audit_problems": problems,
+        "input_distribution": hist, "audit_problems": problems, "pairwise": pw,
     }, assumptions=[
         "only MissingKey/SurplusKey are counted as the diagnostics of this property (DESIGN §10)",
         "key names never end in a plural suffix, so merge_plurals is the identity on the generated files",
